@@ -108,7 +108,8 @@ def run_tlc(module: str, cfg: str, *, scratch: str, workers: int = 16, coverage:
         mod_path = os.path.join(SPEC, module + ".tla")
     meta = tempfile.mkdtemp(prefix="tlcmeta_", dir=scratch)
     out_path = os.path.join(scratch, f"tlc_{module}_{os.path.basename(cfg)}_{int(time.time()*1000)%100000}.out")
-    cmd = ["java", "-XX:+UseParallelGC", f"-Xmx{heap}", f"-DTLA-Library={SPEC}", "-cp", TLA_CP, "tlc2.TLC",
+    # (java.io.tmpdir: TLC unpacks its standard modules into a fresh temporary directory per run and leaves it behind)
+    cmd = ["java", "-XX:+UseParallelGC", f"-Xmx{heap}", f"-DTLA-Library={SPEC}", f"-Djava.io.tmpdir={meta}", "-cp", TLA_CP, "tlc2.TLC",
            "-workers", str(workers), "-metadir", meta, "-noGenerateSpecTE",
            "-config", cfg]
     if coverage:
@@ -181,8 +182,9 @@ def run_tlc(module: str, cfg: str, *, scratch: str, workers: int = 16, coverage:
 
 
 def sany(module: str) -> None:
-    p = subprocess.run(["java", "-cp", TLA_CP, "tla2sany.SANY", os.path.join(SPEC, module + ".tla")],
-                       capture_output=True, text=True, cwd=SPEC)
+    with tempfile.TemporaryDirectory(prefix="verif_sany_") as tmp:
+        p = subprocess.run(["java", f"-Djava.io.tmpdir={tmp}", "-cp", TLA_CP, "tla2sany.SANY", os.path.join(SPEC, module + ".tla")],
+                           capture_output=True, text=True, cwd=SPEC)
     if p.returncode != 0 or "Semantic errors" in p.stdout or "Parse Error" in p.stdout or "Fatal errors" in p.stdout:
         raise MachineryFailure(f"SANY rejected {module}:\n{p.stdout[-2000:]}")
 
